@@ -7,8 +7,8 @@ replay = base.s_replay
 
 
 def run(tier):
-    jobs = [chrun.SJob("vlib.sh.c04", "c04", base.parts(32), 400 if tier == "quick" else 1200,
-                       what="global_getclosurevars + _rewrite_captured_vars + _resolve_called_lambdas + check_ast on 32 lambda shapes (free name in a closure cell / module "
+    jobs = [chrun.SJob("vlib.sh.c04", "c04", base.parts(34), 400 if tier == "quick" else 1200,
+                       what="global_getclosurevars + _rewrite_captured_vars + _resolve_called_lambdas + check_ast on 34 lambda shapes (free name in a closure cell / module "
                             "global / nested class attribute / module attribute; the same name shadowed by the lambda's own parameter, a nested lambda's parameter, a called "
                             "lambda's parameter, a comprehension target, at nesting depth 0-2, used before / inside / after the shadowing scope; keyword arguments, default "
                             "values, uncaptured names); the closure is a real one obtained by calling a compiled factory with the symbolic value; symbolic: the captured "
@@ -19,7 +19,7 @@ def run(tier):
                        explanation="bounded symbolic execution (CrossHair/z3) of the capture rewriting on real closures with symbolic cell / global / class-attribute contents",
                        functions=["func_adl.util_ast.global_getclosurevars", "_rewrite_captured_vars (visit_Name, visit_Attribute, visit_Lambda, comprehension scopes, visit_Call, is_arg)",
                                   "_resolve_called_lambdas", "check_ast"],
-                       bounds={"shapes": 32, "history_length": 1, "str_len": 3, "int": "unbounded"},
+                       bounds={"shapes": 34, "history_length": 1, "str_len": 3, "int": "unbounded"},
                        extra_assumptions=["source recovery (C03) is skipped: the lambda's AST is handed to the rewriter directly; the end-to-end path through ObjectStream.Select with "
                                           "real lambdas and captured constants is exercised by C01's generated modules"])
     try:
